@@ -123,89 +123,64 @@ def order(rc):
         rc.fail(f, fn, "Omega must be diagonal with each node's own residual variance", construct="omega")
         return
     OM = bo["_OM"]
-    n, bv = tm.find(fn, "_INV = np.linalg.inv(_I - _B)", {"_B": Bn})
-    if n is None:
+    from ..util import deep_resolve as _dr, single_defs as _sd
+    n, bv = tm.find(fn, "_INV = np.linalg.inv(__I - _B)", {"_B": Bn})
+    if n is None or tm.is_(_dr(bv["__I"], _sd(f)), "np.eye(__N)") is None:
         rc.fail(f, fn, "inv must be (I - B)^-1", construct="inverse")
         return
     INV = bv["_INV"]
-    fwd = tm.has(fn, "_C = _INV.T @ _OM @ _INV", {"_INV": INV, "_OM": OM})
-    rev = tm.has(fn, "_C = _INV @ _OM @ _INV.T", {"_INV": INV, "_OM": OM})
+    fwd = bool(tm.find_all(fn, "_INV.T @ _OM @ _INV", {"_INV": INV, "_OM": OM}, nested=True))
+    rev = bool(tm.find_all(fn, "_INV @ _OM @ _INV.T", {"_INV": INV, "_OM": OM}, nested=True))
     rc.ob(f"B orientation [{orient}]; implied covariance inv.T@omega@inv: {fwd}, inv@omega@inv.T: {rev}")
     want_fwd = orient == "parent,child"
     if (want_fwd and not fwd) or (not want_fwd and not rev):
         rc.fail(f, fn, f"with B[{orient}] the implied covariance must be " + ("inv.T @ omega @ inv" if want_fwd else "inv @ omega @ inv.T") +
                 " (= (I-B)^-T Omega (I-B)^-1 for B[parent, child])", construct="covariance orientation")
-    # predict
+    # predict — judged on the resolved view (all single-definition temporaries inlined), so the rule does not depend on how the
+    # blocks are named or whether they are named at all
+    from ..util import resolved_fn
     p = repo.func(LG, "LinearGaussianBayesianNetwork.predict")
-    pn = p.node
-    n, b = tm.find(pn, "_VO = list(nx.topological_sort(self))")
-    rc.ob(f"predict: variable order is the same topological sort: {n is not None}")
-    if n is None:
-        rc.fail(p, pn, "predict must index mean/cov with the same variable order that to_joint_gaussian used to build them", construct="predict order")
-        return
-    VO = b["_VO"]
-    n, b = tm.find(pn, "_MU, _COV = self.to_joint_gaussian()")
-    if n is None:
+    pr_ = resolved_fn(p)
+    rets = [n for n in walk_no_nested(pr_) if isinstance(n, ast.Return) and isinstance(n.value, ast.Tuple) and len(n.value.elts) == 3]
+    if not rets:
+        raise AnalysisError("predict: (names, mean, covariance) result not found")
+    names_e, mu_e, cov_e = rets[-1].value.elts
+    _, bj = tm.find(p.node, "_MU, _COV = self.to_joint_gaussian()")
+    if bj is None:
         raise AnalysisError("predict: joint mean/covariance not obtained from to_joint_gaussian()")
-    MU, COV = b["_MU"], b["_COV"]
-    n, b = tm.find(pn, "_MI = [_VO.index(_v) for _v in _MV]", {"_VO": VO})
-    if n is None:
-        rc.fail(p, pn, "predict: the indices of the missing variables must be their positions in the variable order", construct="predict missing_indexes")
+    bc = tm.is_(cov_e, "__AA - __AB @ np.linalg.inv(__BB) @ __AB.T")
+    rc.ob(f"predict: conditional covariance has the form aa - ab bb^-1 ab^T: {bc is not None}")
+    if bc is None:
+        rc.fail(p, p.node, "predict: conditional covariance = cov_aa - cov_ab cov_bb^-1 cov_ab^T", construct="predict cov_cond")
         return
-    MI, MV = b["_MI"], b["_MV"]
-    n, b = tm.find(pn, "_RV = [_v for _v in _VO if _v not in _MV]", {"_VO": VO, "_MV": MV})
-    if n is None:
-        rc.fail(p, pn, "predict: the observed variables must keep the variable order", construct="predict remain_vars")
+    bm = tm.is_(mu_e, "np.atleast_2d(_MU[__MI]) + (__AB @ np.linalg.inv(__BB) @ (data.loc[:, __RV].values - np.atleast_2d(np.delete(_MU, __MI))).T).T", dict(bc, _MU=bj["_MU"]))
+    rc.ob(f"predict: conditional mean = mu_a + ab bb^-1 (x_b - mu_b) with the same blocks: {bm is not None}")
+    if bm is None:
+        rc.fail(p, p.node, "predict: conditional mean = mu_a + cov_ab cov_bb^-1 (x_b - mu_b) with the observed columns taken in the order of remain_vars", construct="predict mu_cond")
         return
-    RV = b["_RV"]
-    base = {"_MU": MU, "_COV": COV, "_MI": MI}
-    n, b = tm.find(pn, "_MA = _MU[_MI]", base)
-    n2, b2 = tm.find(pn, "_MB = np.delete(_MU, _MI)", base)
-    if n is None or n2 is None:
-        rc.fail(p, pn, "predict: mu_a = mu[missing], mu_b = mu without the missing entries", construct="predict mu blocks")
+    B0 = dict(bm, _COV=bj["_COV"])
+    okaa = any(tm.is_(bm["__AA"], t, B0) is not None for t in ("_COV[np.ix_(__MI, __MI)]", "_COV[__MI][:, __MI]", "_COV[__MI, :][:, __MI]", "_COV[__MI, __MI]"))
+    okbb = any(tm.is_(bm["__BB"], t, B0) is not None for t in ("np.delete(np.delete(_COV, __MI, axis=0), __MI, axis=1)", "np.delete(np.delete(_COV, __MI, axis=1), __MI, axis=0)"))
+    okab = any(tm.is_(bm["__AB"], t, B0) is not None for t in ("np.delete(_COV[__MI, :], __MI, axis=1)", "np.delete(_COV, __MI, axis=1)[__MI, :]", "np.delete(_COV[__MI], __MI, axis=1)"))
+    rc.ob(f"predict blocks: aa over missing x missing {okaa}; bb without missing rows and columns {okbb}; ab missing rows, observed columns {okab}")
+    if not okaa:
+        rc.fail(p, p.node, "predict: cov_aa must be the missing x missing block of cov", construct="predict cov_aa")
+    if not (okbb and okab):
+        rc.fail(p, p.node, "predict: cov_bb = cov without missing rows AND columns; cov_ab = missing rows, observed columns", construct="predict cov blocks")
+    bi = tm.is_(bm["__MI"], "[__VO.index(_v) for _v in __MV]")
+    if bi is None or tm.is_(bi["__VO"], "list(nx.topological_sort(self))") is None:
+        rc.fail(p, p.node, "predict must index mean/cov with the same variable order that to_joint_gaussian used to build them (positions of the missing variables in the topological order)",
+                construct="predict order")
         return
-    MA, MB = b["_MA"], b2["_MB"]
-    caa = None
-    for t in ("_AA = _COV[np.ix_(_MI, _MI)]", "_AA = _COV[_MI][:, _MI]", "_AA = _COV[_MI, :][:, _MI]", "_AA = _COV[_MI, _MI]"):
-        n, b = tm.find(pn, t, base)
-        if n is not None:
-            caa = b["_AA"]
-            break
-    if caa is None:
-        rc.fail(p, pn, "predict: cov_aa must be the missing x missing block of cov", construct="predict cov_aa")
-        return
-    cbb = None
-    for t in ("_BB = np.delete(np.delete(_COV, _MI, axis=0), _MI, axis=1)", "_BB = np.delete(np.delete(_COV, _MI, axis=1), _MI, axis=0)"):
-        n, b = tm.find(pn, t, base)
-        if n is not None:
-            cbb = b["_BB"]
-    cab = None
-    for t in ("_AB = np.delete(_COV[_MI, :], _MI, axis=1)", "_AB = np.delete(_COV, _MI, axis=1)[_MI, :]", "_AB = np.delete(_COV[_MI], _MI, axis=1)"):
-        n, b = tm.find(pn, t, base)
-        if n is not None:
-            cab = b["_AB"]
-    rc.ob(f"predict blocks: aa={caa}, bb={cbb}, ab={cab}")
-    if cbb is None or cab is None:
-        rc.fail(p, pn, "predict: cov_bb = cov without missing rows AND columns; cov_ab = missing rows, observed columns", construct="predict cov blocks")
-        return
-    n, b = tm.find(pn, "_INVB = np.linalg.inv(_BB)", {"_BB": cbb})
-    if n is None:
-        rc.fail(p, pn, "predict: the observed block must be inverted", construct="predict cov_bb_inv")
-        return
-    IB_ = b["_INVB"]
-    if not tm.has(pn, "_CC = _AA - _AB @ _INVB @ _AB.T", {"_AA": caa, "_AB": cab, "_INVB": IB_}):
-        rc.fail(p, pn, "predict: conditional covariance = cov_aa - cov_ab cov_bb^-1 cov_ab^T", construct="predict cov_cond")
-    okmc = tm.has(pn, "_MC = np.atleast_2d(_MA) + (_AB @ _INVB @ (data.loc[:, _RV].values - np.atleast_2d(_MB)).T).T",
-                  {"_MA": MA, "_MB": MB, "_AB": cab, "_INVB": IB_, "_RV": RV})
-    if not okmc:
-        rc.fail(p, pn, "predict: conditional mean = mu_a + cov_ab cov_bb^-1 (x_b - mu_b) with the observed columns taken in the order of remain_vars", construct="predict mu_cond")
-    r = returns_of(p)[-1].value
-    if not (isinstance(r, ast.Tuple) and tm.is_(r.elts[0], "[_VO[_i] for _i in _MI]", {"_VO": VO, "_MI": MI}) is not None):
-        rc.fail(p, pn, "the returned variable names must follow the order of the returned mean/covariance (missing_indexes)", construct="predict names")
+    if tm.is_(bm["__RV"], "[_v for _v in __VO if _v not in __MV]", {"__VO": bi["__VO"], "__MV": bi["__MV"]}) is None:
+        rc.fail(p, p.node, "predict: the observed variables must keep the variable order", construct="predict remain_vars")
+    if tm.is_(names_e, "[__VO[_i] for _i in __MI]", {"__VO": bi["__VO"], "__MI": bm["__MI"]}) is None:
+        rc.fail(p, p.node, "the returned variable names must follow the order of the returned mean/covariance (missing_indexes)", construct="predict names")
     # simulate / fit
     s = repo.func(LG, "LinearGaussianBayesianNetwork.simulate")
-    n, b = tm.find(s.node, "_V = list(nx.topological_sort(self))")
-    oks = n is not None and any(dotted(kwarg(c, "columns")) == b["_V"] for c in repo.calls_in(s) if call_name(c) == "DataFrame")
+    from ..util import deep_resolve as _dr2, single_defs as _sd2
+    oks = any(kwarg(c, "columns") is not None and tm.is_(_dr2(kwarg(c, "columns"), _sd2(s)), "list(nx.topological_sort(self))") is not None
+              for c in repo.calls_in(s) if call_name(c) == "DataFrame")
     rc.ob(f"simulate labels columns with the topological order: {oks}")
     if not oks:
         rc.fail(s, s.node, "simulate must label the columns with the order to_joint_gaussian used", construct="simulate columns")
